@@ -18,3 +18,37 @@ package mysql
 //@   ensures unset-restrict-and-no-action-are-one-action: gvcNoAct(from) && gvcNoAct(to) ==> !r
 //@   ensures other-actions-compared-exactly: !gvcNoAct(from) && !gvcNoAct(to) ==> r == (from != to)
 //@   ensures an-action-against-none-is-a-change: gvcNoAct(from) != gvcNoAct(to) ==> r
+
+// ---------------------------------------------------------------------------------------
+// C02: the MySQL column comparator returns what the generic walker assumes of a driver - nil or
+// a ModifyColumn of exactly the two columns - sets the Null flag exactly when nullability
+// differs and no flag outside the seven it computes.  The five comparators it combines are
+// trusted here (deterministic, write nothing); their string/charset logic is not under contract.
+
+//@ import "ariga.io/atlas/sql/internal/sqlx"
+
+//@ func (d *diff) typeChanged(from, to *schema.Column) (changed bool, err error)
+//@   trusted
+//@   pure
+//@ func (d *diff) defaultChanged(from, to *schema.Column) (changed bool, err error)
+//@   trusted
+//@   pure
+//@ func (d *diff) generatedChanged(from, to *schema.Column) (changed bool, err error)
+//@   trusted
+//@   pure
+//@ func (d *diff) columnCharsetChanged(fromT *schema.Table, from, to *schema.Column) (changed bool, err error)
+//@   trusted
+//@   pure
+//@ func (d *diff) columnCollateChanged(fromT *schema.Table, from, to *schema.Column) (changed bool, err error)
+//@   trusted
+//@   pure
+
+//@ func (d *diff) ColumnChange(fromT *schema.Table, from, to *schema.Column, o *schema.DiffOptions) (r schema.Change, err error)
+//@   requires d != nil && from != nil && to != nil && from.Type != nil && to.Type != nil && sqlx.NoChange == nil
+//@   modifies struct(schema.GeneratedExpr)
+//@   ensures nil-or-a-modification-of-the-two-columns: err == nil && r != nil ==> GvcIs[*schema.ModifyColumn](r) && r.(*schema.ModifyColumn) != nil &&
+//@           r.(*schema.ModifyColumn).From == from && r.(*schema.ModifyColumn).To == to && r.(*schema.ModifyColumn).Change != schema.NoChange
+//@   ensures null-flag-iff-nullability-differs: err == nil && r != nil ==> (r.(*schema.ModifyColumn).Change&schema.ChangeNull != 0) == (from.Type.Null != to.Type.Null)
+//@   ensures nullability-change-is-reported: err == nil && from.Type.Null != to.Type.Null ==> r != nil
+//@   ensures no-flag-outside-the-computed-ones: err == nil && r != nil ==> r.(*schema.ModifyColumn).Change&^(schema.ChangeComment|schema.ChangeNull|schema.ChangeType|schema.ChangeDefault|schema.ChangeGenerated|schema.ChangeCharset|schema.ChangeCollate) == 0
+//@   ensures an-error-reports-no-change: err != nil ==> r == nil
